@@ -40,7 +40,10 @@ func (s *MemoryStore) Get(name enc.Name, prefix bool) ([]byte, error) {
 	defer s.mutex.RUnlock()
 
 	if node := s.root.find(name); node != nil {
-		if node.wire == nil && prefix {
+		// a prefix query returns the newest packet with this prefix: a packet stored
+		// under the name itself competes with the packets below it (as in BoltStore),
+		// it does not end the search
+		if prefix {
 			node = node.findNewest()
 		}
 		return node.wire, nil
